@@ -1,0 +1,13 @@
+//go:build verif
+
+package casket
+
+import "sync"
+
+// Test-only export for the /verif harness (property C11): an Instance as Start
+// builds it, so that ValidateAndExecuteDirectives can be driven with
+// justValidate=false without binding listeners. Add-only; compiled only with
+// the "verif" build tag.
+func VerifNewInstance(serverType string) *Instance {
+	return &Instance{serverType: serverType, wg: new(sync.WaitGroup), Storage: make(map[interface{}]interface{})}
+}
